@@ -17,7 +17,7 @@ from concurrent.futures import ProcessPoolExecutor
 from common import run_apalache, CICADA, HELPERS, Report, ToolError, check_action_coverage, cleanup_scratch, log, run_tlc, std_main
 import tracecheck
 
-TEXT = {"t1": "plain words", "t2": "it's", "t3": 'a"b', "t4": "100%", "t5": "a_b", "t6": "a\\b", "t7": "x; --", "t8": ")", "t9": "é 你"}
+TEXT = {"t1": "plain words", "t2": "it's", "t3": 'a"b', "t4": "100%", "t5": "a_b", "t6": "a\\b", "t7": "x; --", "t8": ")", "t9": "é 你", "ta": "007", "tb": "1.50", "tc": "2024"}
 PAT = {"p1": "it's", "p2": "%", "p3": "_", "p4": "a\\b", "p5": "--", "p6": "plain", "p7": "a\\", "p8": "\\b", "p9": "0%", "p10": "\\"}
 DIR = {"d1": "plain", "d2": "d'q", "d3": "d%p"}
 
